@@ -65,8 +65,16 @@ func (rm *RegistrationManager) VerifCaptureDetector(sink *[]VerifDetectorMsg) {
 	rm.registeredDecoys.registerForDetector = func(d *DecoyRegistration) {
 		var life any
 		if d != nil && d.PhantomIp != nil {
-			if t, ok := rm.registeredDecoys.decoysTimeouts[rm.registeredDecoys.timeoutKey(d, d.PhantomIp.String())]; ok {
-				life = t
+			// (found by its fields, not through the registry's own key function: that helper is the kind of thing a
+			// refactor renames, and an accessor that stops compiling turns a verdict into a harness error)
+			ident := ""
+			if tr, ok := rm.registeredDecoys.transports[d.Transport]; ok {
+				ident = tr.GetIdentifier(d)
+			}
+			for _, t := range rm.registeredDecoys.decoysTimeouts {
+				if t.regID == d.IDString() && t.decoy == d.PhantomIp.String() && t.identifier == ident {
+					life = t
+				}
 			}
 		}
 		*sink = append(*sink, VerifDetectorMsg{"New", d, d.Valid, life})
